@@ -480,6 +480,27 @@ fn is_action_mapping(m: &Mapping) -> bool {
   }
 }
 
+pub open spec fn has_action(keys: Seq<KeyCode>) -> bool { exists|j: int| 0 <= j < keys.len() && !is_mod(#[trigger] keys[j]) }
+
+//@ C08 C14 | default: fn has_action_key
+fn has_action_key(keys: &Vec<KeyCode>) -> (r: bool)
+  ensures
+    //@ C08 | exact test: true iff the list contains a non-modifier key
+    r == has_action(keys@),
+  { //@ | body
+  for k in it: keys
+    invariant
+      forall|j: int| 0 <= j < it.index@ ==> is_mod(#[trigger] keys@[j]),
+      it.seq().len() == keys@.len(), forall|j: int| 0 <= j < keys@.len() ==> *it.seq()[j] == keys@[j],
+    { //@ | body
+    proof { assert(*k == keys@[it.index@ as int]); }
+    if is_action_key(k) {
+      return true;
+    }
+  }
+  return false;
+}
+
 fn is_any_modifier(keys: &Vec<KeyCode>) -> bool {
   keys.iter().any(|k| !is_action_key(k))
 }
@@ -1180,6 +1201,8 @@ fn add_new_mapping(state: &mut State, new_key: &KeyCode, m: &Mapping) -> (res: S
     let ghost e0 = events@; let ghost hm0 = held(*state);
     events.append(&mut release_action_mappings(state));
     proof { let c1 = choose|c: Seq<Event>| events@ == e0 + c && apply(hm0, c) == Some(held(*state)); lemma_apply_append(h0, e0, c1); assert(jx(*state, m.to@)); assert(nonempty_from(state.active_mappings@)); assert((j2(*old(state)) ==> j2(*state)) && (j3(*old(state)) ==> j3(*state)) && (j4(*old(state)) ==> j4(*state)) && (j6(*old(state)) ==> j6(*state)) && sub(state.input_pressed_keys@, old(state).input_pressed_keys@) && (forall|x: KeyCode| #[trigger] old(state).input_pressed_keys@.contains(x) && (!old(state).mapped_absorbed_keys@.contains(x) || old(state).absorbing_trigger == Some(nk0)) ==> state.input_pressed_keys@.contains(x)) && anm_extra(*old(state), *state, m.absorbing@)); }
+  }
+  if has_action_key(&m.to) {
     let should_absorb = {
       match &state.absorbing_trigger {
         Some(absorbing_trigger) => *absorbing_trigger != *new_key,
